@@ -216,9 +216,10 @@ class CSSNamespaceRule(cssrule.CSSRule):
                 # may be refused (the URI of a rule cannot be changed) so
                 # it has to come first
                 self.namespaceURI = new['uri']
-                self.atkeyword = new['keyword']
-                self._prefix = new['prefix']
-                self._setSeq(newseq)
+                if self._namespaceURI == new['uri']:
+                    self.atkeyword = new['keyword']
+                    self._prefix = new['prefix']
+                    self._setSeq(newseq)
 
     cssText = property(
         fget=_getCssText,
